@@ -124,6 +124,7 @@ type JobRec struct {
 	AddCall  int
 	AddRet   int
 	Accepted bool
+	RejectHandle bool // a rejected Add nevertheless returned a non-nil handle
 	Rejected bool
 	Starts   []int
 	Ends     []int
@@ -603,36 +604,42 @@ func (q *Q) Add(tag int, o AddOpt) *JobRec {
 	case q.q != nil:
 		var j varmq.EnqueuedJob
 		j, ok = q.q.Add(tag, cfg...)
+		jr.RejectHandle = !ok && j != nil
 		if ok {
 			jr.H = j
 		}
 	case q.pq != nil:
 		var j varmq.EnqueuedJob
 		j, ok = q.pq.Add(tag, o.Prio, cfg...)
+		jr.RejectHandle = !ok && j != nil
 		if ok {
 			jr.H = j
 		}
 	case q.eq != nil:
 		var j varmq.EnqueuedErrJob
 		j, ok = q.eq.Add(tag, cfg...)
+		jr.RejectHandle = !ok && j != nil
 		if ok {
 			jr.H, jr.ErrF = j, j.Err
 		}
 	case q.epq != nil:
 		var j varmq.EnqueuedErrJob
 		j, ok = q.epq.Add(tag, o.Prio, cfg...)
+		jr.RejectHandle = !ok && j != nil
 		if ok {
 			jr.H, jr.ErrF = j, j.Err
 		}
 	case q.rq != nil:
 		var j varmq.EnqueuedResultJob[int]
 		j, ok = q.rq.Add(tag, cfg...)
+		jr.RejectHandle = !ok && j != nil
 		if ok {
 			jr.H, jr.ResF = j, j.Result
 		}
 	case q.rpq != nil:
 		var j varmq.EnqueuedResultJob[int]
 		j, ok = q.rpq.Add(tag, o.Prio, cfg...)
+		jr.RejectHandle = !ok && j != nil
 		if ok {
 			jr.H, jr.ResF = j, j.Result
 		}
